@@ -1,4 +1,5 @@
-(* C02: build-after-parse is stable.  For every construct of the closed sequential fragment whose members are named: when a
+(* C02: build-after-parse is stable.  For every construct of the closed sequential fragment whose Struct members are named or are
+   anonymous constants / padding (members that build from nothing): when a
    value builds to some bytes, the value those bytes parse to builds to the SAME bytes again -- in any context, at any stream
    position.  So what the construct produced is reproduced exactly by build(parse(.)), and, whenever build accepts what parse
    returned for ANY accepted input, one more parse/build changes nothing (idempotence): the first re-encoding is canonical. *)
@@ -321,6 +322,54 @@ Proof.
   destruct (Hl _ pp pre rest base sk vs s1 El (push_scope cxb2) pb2 o2 Ho2) as (rs2 & E2). exists (VList rs2). cbn [build bind]. rewrite E2. reflexivity.
 Qed.
 
+(* ---- anonymous members that build from nothing: Const, Padding, Pass ---- *)
+Definition anon (c : con) : bool :=
+  match c with
+  | CPass => true
+  | CConst (VInt _) c' => int_leaf c'
+  | CConst (VBytes d) (CBytes (XConst (VInt n))) => (n =? Z.of_nat (length d))%Z
+  | CPadded (XConst (VInt n)) CPass _ => (0 <=? n)%Z
+  | _ => false
+  end.
+
+Lemma anon_name c : anon c = true -> name_of c = None.
+Proof. destruct c; try discriminate; reflexivity. Qed.
+
+(* what such a member builds does not depend on the context it is built in *)
+Lemma anon_det c : anon c = true -> forall v cxb pb o r out cxb2 pb2 o2, app_mode o -> app_mode o2 ->
+  build c v cxb pb o = Ok (r, oapp o out) -> exists r2, build c v cxb2 pb2 o2 = Ok (r2, oapp o2 out).
+Proof.
+  intros Ha v cxb pb o r out cxb2 pb2 o2 Ho Ho2 Hb. destruct c; try discriminate Ha.
+  - (* Pass *) cbn [build] in Hb |- *. rewrite <- (oapp_nil o Ho) in Hb at 1. apply ok_out_inj in Hb as [_ <-].
+    eexists. rewrite oapp_nil by exact Ho2. reflexivity.
+  - (* Const *) cbn [anon] in Ha. destruct v0; try discriminate Ha.
+    + assert (Hb' : build c (VInt z) cxb pb o = Ok (r, oapp o out)).
+      { cbn [build] in Hb. destruct v; try exact Hb; destruct (val_eqb _ (VInt z)); (exact Hb || discriminate). }
+      assert (Hg : build (CConst (VInt z) c) v cxb2 pb2 o2 = build c (VInt z) cxb2 pb2 o2).
+      { cbn [build] in Hb |- *. destruct v; try reflexivity; destruct (val_eqb _ (VInt z)); (reflexivity || discriminate). }
+      rewrite Hg. exists (VInt z). apply (int_leaf_build_det c Ha z cxb pb o _ out cxb2 pb2 o2 Ho Ho2 Hb').
+    + destruct c; try discriminate Ha. destruct len; try discriminate Ha. destruct v0; try discriminate Ha.
+      apply Z.eqb_eq in Ha. subst z. fold (kint (Z.of_nat (length b))) in *.
+      assert (Hb' : build (CBytes (kint (Z.of_nat (length b)))) (VBytes b) cxb pb o = Ok (r, oapp o out)).
+      { cbn [build] in Hb |- *. destruct v; try exact Hb; destruct (val_eqb _ (VBytes b)); (exact Hb || discriminate). }
+      assert (Hg : build (CConst (VBytes b) (CBytes (kint (Z.of_nat (length b))))) v cxb2 pb2 o2 = build (CBytes (kint (Z.of_nat (length b)))) (VBytes b) cxb2 pb2 o2).
+      { cbn [build] in Hb |- *. destruct v; try reflexivity; destruct (val_eqb _ (VBytes b)); (reflexivity || discriminate). }
+      rewrite Hg. cbn [build] in Hb' |- *. rewrite eval_int_kint in Hb' |- *. cbn [bind int_of_val] in Hb' |- *. unfold write_val in *.
+      rewrite owrite_app in Hb' by exact Ho. rewrite owrite_app by exact Ho2. cbn [bind] in *. apply ok_out_inj in Hb' as [_ <-]. eexists. reflexivity.
+  - (* Padding *) cbn [anon] in Ha. destruct len; try discriminate Ha. destruct v0; try discriminate Ha. destruct c; try discriminate Ha.
+    fold (kint z) in *. cbn [build] in Hb |- *. rewrite eval_int_kint in Hb |- *. cbn [bind] in Hb |- *.
+    rewrite !Z.sub_diag, !Z.sub_0_r in *. destruct (z <? 0)%Z eqn:E0; [discriminate|].
+    destruct (alloc_bound <? z)%Z eqn:E2; [discriminate|].
+    assert (W : forall o0, app_mode o0 -> owrite o0 (repeat pat (Z.to_nat z)) z pb = Ok (oapp o0 (repeat pat (Z.to_nat z)))).
+    { intros o0 H0. assert (Hl : z = Z.of_nat (length (repeat pat (Z.to_nat z)))) by (rewrite repeat_length; lia).
+      rewrite Hl at 2. apply owrite_app, H0. }
+    assert (W2 : forall o0, app_mode o0 -> owrite o0 (repeat pat (Z.to_nat z)) z pb2 = Ok (oapp o0 (repeat pat (Z.to_nat z)))).
+    { intros o0 H0. assert (Hl : z = Z.of_nat (length (repeat pat (Z.to_nat z)))) by (rewrite repeat_length; lia).
+      rewrite Hl at 2. apply owrite_app, H0. }
+    rewrite W in Hb by exact Ho. cbn [bind] in Hb. apply ok_out_inj in Hb as [_ <-].
+    rewrite W2 by exact Ho2. cbn [bind]. eexists. reflexivity.
+Qed.
+
 (* ---- Struct: every member named ---- *)
 Definition named (c : con) : bool := match c with CRenamed _ _ => true | _ => false end.
 
@@ -340,7 +389,9 @@ Proof.
     + destruct e; try discriminate. destruct (is_stopif c); [|discriminate]. injection H as <- _ _. reflexivity.
 Qed.
 
-Lemma struct_RB : forall cs, Forall RT cs -> Forall RB cs -> NoDup (names cs) -> no_stopif cs -> forallb named cs = true ->
+Definition memberok (c : con) : bool := named c || anon c.
+
+Lemma struct_RB : forall cs, Forall RT cs -> Forall RB cs -> NoDup (names cs) -> no_stopif cs -> forallb memberok cs = true ->
   forall kv cxb pb o cxb' o', app_mode o -> struct_bloop build kv cs cxb pb o = Ok (cxb', o') ->
   exists out, o' = oapp o out /\
     forall cxp pp acc pre rest base sk acc' cxp' s',
@@ -352,31 +403,50 @@ Proof.
   - injection Hb as _ <-. exists []. split; [symmetry; apply oapp_nil; exact Ho|].
     intros. eexists. cbn [struct_bloop]. rewrite oapp_nil by assumption. reflexivity.
   - inversion HT as [|? ? Hc Ht]; subst. inversion HB as [|? ? Hcb Htb]; subst. inversion Hns as [|? ? Hs1 Hs2]; subst.
-    cbn [forallb] in Hnm. apply andb_prop in Hnm as [Hn1 Hn2]. destruct c as [| | | | | | | | | | | | | | | | | | | | | | | | | | | | | | | | | | | | |n c0| | | | | | | | | | | | | | | | | | | | | ]; try discriminate Hn1.
-    cbn [name_of] in Hb.
-    match type of Hb with context [bind ?X _] => destruct X as [subobj|] eqn:Es end; [|discriminate]. cbn [bind] in Hb.
-    destruct (build (CRenamed n c0) subobj (ctx_set cxb n subobj) pb o) as [[r o1]|e q] eqn:Ec.
-    2:{ destruct e; try discriminate. rewrite Hs1 in Hb. discriminate. }
-    assert (Hn_t : ~ In n (names t)) by (rewrite names_cons_r in Hnd; cbn [name_of app] in Hnd; inversion Hnd; assumption).
-    assert (Hnd' : NoDup (names t)) by (rewrite names_cons_r in Hnd; cbn [name_of app] in Hnd; inversion Hnd; assumption).
-    destruct (Hc subobj _ pb o r o1 Ho Ec) as (out1 & -> & Hp1).
-    destruct (IH Ht Htb Hnd' Hs2 Hn2 kv _ pb _ cxb' o' (app_mode_oapp _ _) Hb) as (out2 & -> & Hp2).
-    exists (out1 ++ out2). split; [apply oapp_app|].
-    intros cxp pp acc pre rest base sk acc' cxp' s' Hp kv2 Hkv cxb2 pb2 o2 Ho2. rewrite <- app_assoc in Hp. cbn [struct_loop] in Hp.
-    destruct (Hp1 cxp pp pre (out2 ++ rest) base sk) as (r' & E1 & _). rewrite E1 in Hp. cbn [name_of] in Hp.
-    (* the member's entry in the parsed value is what it parsed to *)
-    assert (Hl : lookup n kv2 = Some r').
-    { rewrite (Hkv n) by (rewrite names_cons_r; cbn [name_of app]; left; reflexivity).
-      rewrite (loop_preserves _ _ _ _ _ _ _ _ Hp n Hn_t). apply lookup_dict_set_same. }
-    cbn [struct_bloop name_of]. rewrite Hl. cbn [bind].
-    destruct (Hcb subobj _ pb o r out1 Ho Ec cxp pp pre (out2 ++ rest) base sk r' _ E1 (ctx_set cxb2 n r') pb2 o2 Ho2) as (r2 & E2). rewrite E2.
-    assert (Hkv' : forall m, In m (names t) -> lookup m kv2 = lookup m acc').
-    { intros m Hm. apply Hkv. rewrite names_cons_r. apply in_or_app. right. exact Hm. }
-    destruct (Hp2 _ pp _ (pre ++ out1) rest base sk acc' cxp' s' Hp kv2 Hkv' (ctx_set (ctx_set cxb2 n r') n r2) pb2 (oapp o2 out1) (app_mode_oapp _ _)) as (cxf & E3).
-    rewrite E3. rewrite oapp_app. eexists. reflexivity.
+    cbn [forallb] in Hnm. apply andb_prop in Hnm as [Hn1 Hn2]. unfold memberok in Hn1. destruct (named c) eqn:Enamed.
+    + (* a named member *)
+      destruct c as [| | | | | | | | | | | | | | | | | | | | | | | | | | | | | | | | | | | | |n c0| | | | | | | | | | | | | | | | | | | | | ]; try discriminate Enamed.
+      cbn [name_of] in Hb.
+      match type of Hb with context [bind ?X _] => destruct X as [subobj|] eqn:Es end; [|discriminate]. cbn [bind] in Hb.
+      destruct (build (CRenamed n c0) subobj (ctx_set cxb n subobj) pb o) as [[r o1]|e q] eqn:Ec.
+      2:{ destruct e; try discriminate. rewrite Hs1 in Hb. discriminate. }
+      assert (Hn_t : ~ In n (names t)) by (rewrite names_cons_r in Hnd; cbn [name_of app] in Hnd; inversion Hnd; assumption).
+      assert (Hnd' : NoDup (names t)) by (rewrite names_cons_r in Hnd; cbn [name_of app] in Hnd; inversion Hnd; assumption).
+      destruct (Hc subobj _ pb o r o1 Ho Ec) as (out1 & -> & Hp1).
+      destruct (IH Ht Htb Hnd' Hs2 Hn2 kv _ pb _ cxb' o' (app_mode_oapp _ _) Hb) as (out2 & -> & Hp2).
+      exists (out1 ++ out2). split; [apply oapp_app|].
+      intros cxp pp acc pre rest base sk acc' cxp' s' Hp kv2 Hkv cxb2 pb2 o2 Ho2. rewrite <- app_assoc in Hp. cbn [struct_loop] in Hp.
+      destruct (Hp1 cxp pp pre (out2 ++ rest) base sk) as (r' & E1 & _). rewrite E1 in Hp. cbn [name_of] in Hp.
+      (* the member's entry in the parsed value is what it parsed to *)
+      assert (Hl : lookup n kv2 = Some r').
+      { rewrite (Hkv n) by (rewrite names_cons_r; cbn [name_of app]; left; reflexivity).
+        rewrite (loop_preserves _ _ _ _ _ _ _ _ Hp n Hn_t). apply lookup_dict_set_same. }
+      cbn [struct_bloop name_of]. rewrite Hl. cbn [bind].
+      destruct (Hcb subobj _ pb o r out1 Ho Ec cxp pp pre (out2 ++ rest) base sk r' _ E1 (ctx_set cxb2 n r') pb2 o2 Ho2) as (r2 & E2). rewrite E2.
+      assert (Hkv' : forall m, In m (names t) -> lookup m kv2 = lookup m acc').
+      { intros m Hm. apply Hkv. rewrite names_cons_r. apply in_or_app. right. exact Hm. }
+      destruct (Hp2 _ pp _ (pre ++ out1) rest base sk acc' cxp' s' Hp kv2 Hkv' (ctx_set (ctx_set cxb2 n r') n r2) pb2 (oapp o2 out1) (app_mode_oapp _ _)) as (cxf & E3).
+      rewrite E3. rewrite oapp_app. eexists. reflexivity.
+    + (* an anonymous member that builds from nothing: the same bytes again, whatever the context *)
+      cbn [orb] in Hn1. pose proof (anon_name c Hn1) as En. rewrite En in Hb.
+      destruct (buildnone c) eqn:Ebn; [|discriminate]. cbn [bind] in Hb.
+      destruct (build c VNone cxb pb o) as [[r o1]|e q] eqn:Ec.
+      2:{ destruct e; try discriminate. rewrite Hs1 in Hb. discriminate. }
+      assert (Hnd' : NoDup (names t)) by (rewrite names_cons_r, En in Hnd; exact Hnd).
+      destruct (Hc VNone _ pb o r o1 Ho Ec) as (out1 & -> & Hp1).
+      destruct (IH Ht Htb Hnd' Hs2 Hn2 kv _ pb _ cxb' o' (app_mode_oapp _ _) Hb) as (out2 & -> & Hp2).
+      exists (out1 ++ out2). split; [apply oapp_app|].
+      intros cxp pp acc pre rest base sk acc' cxp' s' Hp kv2 Hkv cxb2 pb2 o2 Ho2. rewrite <- app_assoc in Hp. cbn [struct_loop] in Hp.
+      destruct (Hp1 cxp pp pre (out2 ++ rest) base sk) as (r' & E1 & _). rewrite E1, En in Hp.
+      cbn [struct_bloop]. rewrite En, Ebn. cbn [bind].
+      destruct (anon_det c Hn1 VNone cxb pb o r out1 cxb2 pb2 o2 Ho Ho2 Ec) as (r2 & E2). rewrite E2.
+      assert (Hkv' : forall m, In m (names t) -> lookup m kv2 = lookup m acc').
+      { intros m Hm. apply Hkv. rewrite names_cons_r, En. exact Hm. }
+      destruct (Hp2 _ pp _ (pre ++ out1) rest base sk acc' cxp' s' Hp kv2 Hkv' cxb2 pb2 (oapp o2 out1) (app_mode_oapp _ _)) as (cxf & E3).
+      rewrite E3. rewrite oapp_app. eexists. reflexivity.
 Qed.
 
-Theorem RB_struct cs : Forall RT cs -> Forall RB cs -> NoDup (names cs) -> no_stopif cs -> forallb named cs = true -> RB (CStruct cs).
+Theorem RB_struct cs : Forall RT cs -> Forall RB cs -> NoDup (names cs) -> no_stopif cs -> forallb memberok cs = true -> RB (CStruct cs).
 Proof.
   intros HT HB Hnd Hns Hnm v cxb pb o r out Ho Hb cxp pp pre rest base sk r' s' Hp cxb2 pb2 o2 Ho2. cbn [build] in Hb.
   destruct (match v with VNone => Ok [] | VDict kv => Ok kv | _ => unsupported end) as [kv|] eqn:Ek; [|discriminate]. cbn [bind] in Hb.
@@ -398,7 +468,7 @@ Fixpoint sfrag (e : bool) (c : con) : bool :=
   | CRenamed _ c' => sfrag e c'
   | CConst (VInt _) c' => int_leaf c'
   | CConst (VBytes d) (CBytes (XConst (VInt n))) => (n =? Z.of_nat (length d))%Z
-  | CStruct cs => forallb (sfrag false) cs && nodupb (names cs) && forallb named cs
+  | CStruct cs => forallb (sfrag false) cs && nodupb (names cs) && forallb memberok cs
   | CSequence cs => forallb (sfrag false) cs
   | CArray (XConst (VInt n)) c' => (0 <=? n)%Z && sfrag false c'
   | CPrefixed lc c' false => int_leaf lc && sfrag true c'
@@ -488,16 +558,19 @@ Theorem C02_reencoding_is_idempotent : forall c kw data v r out, sfrag false c =
 Proof. intros c kw data v r out Hf _ Hb. apply (C02_reproduced_exactly c v kw r out Hf Hb kw kw). Qed.
 
 Definition ex_stable : con :=
-  CStruct [CRenamed [x61] (CFormat Little FH);
+  CStruct [CConst (VBytes [x4d; x5a]) (CBytes (kint 2));
+           CRenamed [x61] (CFormat Little FH);
            CRenamed [x62] (CPrefixed CVarInt CGreedyBytes false);
            CRenamed [x78] (CArray (kint 2) (CBytesInt (kint 3) true true));
            CRenamed [x63] (CPadded (kint 4) (CConst (VInt 7) (CFormat Big FB)) x00);
+           CPadded (kint 2) CPass x00;
            CRenamed [x64] CVarInt].
 
 Lemma ex_stable_in_fragment : sfrag false ex_stable = true.
 Proof. reflexivity. Qed.
 
-(* a non-canonical input (a VarInt with a redundant continuation byte, padding bytes that are not zero) is normalised by the
+(* a non-canonical input (a VarInt with a redundant continuation byte, padding bytes that are not zero, also in the anonymous
+   Padding member) is normalised by the
    first re-encoding and then stays *)
 Definition stable_run (c : con) (data : list byte) : option (bool * bool) :=
   match parse_bytes c [] data with
@@ -511,5 +584,5 @@ Definition stable_run (c : con) (data : list byte) : option (bool * bool) :=
   | _ => None end.
 
 Lemma ex_stable_normalises :
-  stable_run ex_stable [x01; x00; x82; x00; x41; x42; x01; x00; x00; x02; x00; x00; x07; xff; xee; xdd; x85; x00] = Some (false, true).
+  stable_run ex_stable [x4d; x5a; x01; x00; x82; x00; x41; x42; x01; x00; x00; x02; x00; x00; x07; xff; xee; xdd; xaa; xbb; x85; x00] = Some (false, true).
 Proof. vm_compute. reflexivity. Qed.
